@@ -99,11 +99,11 @@ theorem bobLoop_sync {S : Type} (actor : Actor S) (accept : Bytes → Accept) (m
     (e : StreamEnd) (n : Bytes) (p : Outcome) (s : S) (w : List Frame) (c : Nat) :
     bobLoop actor accept (.frame (.sync m) :: rest) e (some n) (some p) s w c =
       match actor.call s n m p with
-      | none => { result := .failed, written := w, progress := some p, store := s, calls := c + 1 }
+      | none => { result := .failed, written := w, progress := some p, store := s, calls := c + 1, nsAtExit := some n }
       | some (s', reply, p') =>
         match reply with
         | some r => bobLoop actor accept rest e (some n) (some p') s' (w ++ [.sync r]) (c + 1)
-        | none => { result := .ok n, written := w, progress := some p', store := s', calls := c + 1 } := by
+        | none => { result := .ok n, written := w, progress := some p', store := s', calls := c + 1, nsAtExit := some n } := by
   cases h : actor.call s n m p with
   | none => simp only [bobLoop, h]
   | some v =>
@@ -114,11 +114,11 @@ theorem bobLoop_init {S : Type} (actor : Actor S) (accept : Bytes → Accept) (m
     (e : StreamEnd) (n : Bytes) (p : Outcome) (s : S) (w : List Frame) (c : Nat) (ha : accept n = .allow) :
     bobLoop actor accept (.frame (.init n m) :: rest) e none (some p) s w c =
       match actor.call s n m p with
-      | none => { result := .failed, written := w, progress := some p, store := s, calls := c + 1 }
+      | none => { result := .failed, written := w, progress := some p, store := s, calls := c + 1, nsAtExit := some n }
       | some (s', reply, p') =>
         match reply with
         | some r => bobLoop actor accept rest e (some n) (some p') s' (w ++ [.sync r]) (c + 1)
-        | none => { result := .ok n, written := w, progress := some p', store := s', calls := c + 1 } := by
+        | none => { result := .ok n, written := w, progress := some p', store := s', calls := c + 1, nsAtExit := some n } := by
   cases h : actor.call s n m p with
   | none => simp only [bobLoop, ha, h]
   | some v =>
